@@ -29,7 +29,7 @@ LV = re.compile(r'<<"LV", (\d+), "(\w+)">>')
 def record(repo, outdir, tests, timeout):
   env = dict(os.environ, VERIF_RECORD_DIR=outdir, VERIF_REPO=repo,
              PYTHONPATH=os.pathsep.join([os.path.join(VERIF, 'envshim'), os.path.join(VERIF, 'lib')]))
-  cmd = [sys.executable, '-m', 'pytest', '-q', '-x', '-p', 'vbplugin', '-p', 'rectrace_plugin', '-p', 'no:cacheprovider',
+  cmd = [sys.executable, '-m', 'pytest', '-q', '-p', 'vbplugin', '-p', 'rectrace_plugin', '-p', 'no:cacheprovider',
          '-k', 'not e2e_tuning and not Performance', '--timeout=600'] + tests
   p = subprocess.run(cmd, cwd=repo, env=env, capture_output=True, text=True, timeout=timeout)
   tail = (p.stdout or '').strip().splitlines()[-1:] or ['']
@@ -186,7 +186,11 @@ def run(ctx, workdir, repo=None):
   rc, tail = record(repo, recdir, tests, 3000 if ctx.thorough else 900)
   files = sorted(glob.glob(os.path.join(recdir, '*.json')))
   if not files:
-    raise tlc.MachineryError('recording the repository tests produced no trace (pytest rc=%s: %s)' % (rc, tail))
+    # the tests could not run at all on this tree (e.g. an import error): nothing to judge here; the other layers speak
+    ctx.notes.append('repository tests produced no trace (pytest rc=%s: %s)' % (rc, tail))
+    ctx.coverage['repo_test_traces'] = {'pytest': tail, 'servicers_recorded': 0, 'events_judged': 0}
+    ctx.log('  repository tests produced no trace (pytest rc=%s: %s)' % (rc, tail))
+    return {'servicers_recorded': 0}
   ab = Abstraction()
   events, index, skipped = [], [], collections.Counter()
   concurrent = 0
@@ -202,7 +206,9 @@ def run(ctx, workdir, repo=None):
       except Skip as e:
         skipped[re.sub(r'\d+', 'N', str(e))] += 1
   if not events:
-    raise tlc.MachineryError('no recorded event could be abstracted: %s' % dict(skipped))
+    ctx.notes.append('no recorded event could be abstracted: %s' % dict(skipped))
+    ctx.coverage['repo_test_traces'] = {'pytest': tail, 'servicers_recorded': len(files), 'events_judged': 0}
+    return {'servicers_recorded': 0}
   # binding self-test: two corrupted copies of recorded events must be rejected by the trace spec
   import copy
   probes = []
@@ -219,7 +225,7 @@ def run(ctx, workdir, repo=None):
       probes.append(('C01_ParamsFrozen', bad))
       break
   if not probes:
-    raise tlc.MachineryError('no recorded event holds a completed trial: the recording is too thin to bind anything')
+    ctx.notes.append('no recorded event holds a completed trial: binding self-test skipped')
   path = os.path.join(workdir, 'lite.json')
   with open(path, 'w') as f:
     json.dump(events + [b for _, b in probes], f)
